@@ -281,13 +281,22 @@ class C15(core.Check):
         inc_files = sorted(state["files"])
         if expand and inc_files and k.random() < 0.4:
             f = s("faults")
-            special = f.choice(["missing", "missing", "isdir", "cycle", "selfcycle", "eio_open", "eacces_open", "eio_read"])
+            special = f.choice(["missing", "missing", "isdir", "cycle", "selfcycle", "shared_first", "shared_first", "eio_open", "eacces_open", "eio_read"])
             victim = f.choice(inc_files)
             if special == "missing":
                 del files[victim]
             elif special == "isdir":
                 del files[victim]
                 dirs.append(victim)
+            elif special == "shared_first":
+                # a file of the tree is ALSO included directly from the root, textually before the line that
+                # reaches it through the chain: the same file is met first at depth 1, later deeper
+                rl = files[root].split("\n")
+                at = next((i for i, l in enumerate(rl) if INC_RE.match(l)), None)
+                if at is not None:
+                    rel = posixpath.relpath(victim, rootdir)
+                    rl.insert(at, f'INCLUDE "{rel}"')
+                    files[root] = "\n".join(rl)
             elif special in ("cycle", "selfcycle"):
                 # some file includes an ancestor-or-itself: the chain never ends by itself
                 target = victim if special == "selfcycle" else f.choice(inc_files + [root])
@@ -448,7 +457,7 @@ class C15(core.Check):
             trace.append([step["mode"], kind, got[0], got[1][1] if got[0] == "exc" else core.digest(got[1]), [e[1:4] for e in hist]])
             for f in fs.fired_faults[fired_before:]:
                 bump(f"fault.{f['op']}_{f['err']}")
-            if case.get("special") in ("missing", "isdir", "cycle", "selfcycle") and si == 0:
+            if case.get("special") in ("missing", "isdir", "cycle", "selfcycle", "shared_first") and si == 0:
                 bump("fault.tree_" + case["special"])
             if writes:
                 violation = viol("opened_for_writing", step, writes[:3])
@@ -459,7 +468,20 @@ class C15(core.Check):
             # too deep / cyclic: "raises instead of recursing forever" - an implementation may notice a cycle
             # earlier than the model does, so any prefix of the model's opens is accepted there (bounded liveness);
             # everywhere else the sequence must be exactly the model's
-            seq_ok = sim_opens == opens or (kind == "too_deep" and got[0] == "exc" and sim_opens == opens[:len(sim_opens)])
+            # An implementation may also remember a file it has already read during the same call, so the
+            # sequences are compared by first occurrence of each path (order kept); nothing outside the
+            # model's sequence may be opened, and nothing the model needs may be skipped.
+            def first_occ(seq):
+                seen, out = set(), []
+                for p_ in seq:
+                    if p_ not in seen:
+                        seen.add(p_)
+                        out.append(p_)
+                return out
+
+            fo_real, fo_model = first_occ(sim_opens), first_occ(opens)
+            seq_ok = (fo_real == fo_model and len(sim_opens) <= len(opens)) or (
+                kind == "too_deep" and got[0] == "exc" and fo_real == fo_model[:len(fo_real)] and len(sim_opens) <= len(opens))
             if not seq_ok:
                 violation = viol("open_sequence", step, {"real": sim_opens, "model": opens, "cwd": step["cwd"]}, model=kind)
                 break
